@@ -99,6 +99,14 @@ class SymArray:
     __array_priority__ = 1000
     _symarray = True
 
+    @classmethod
+    def _view(cls, a, dt, dom):
+        """wrap an object array whose elements are already normalised WITHOUT copying it (NumPy view semantics:
+        writes through x.reshape(...)[idx] = v must reach the base array)"""
+        s = cls.__new__(cls)
+        s._dt = np.dtype(dt).type; s.dom = dom; s.a = a
+        return s
+
     def __init__(self, a, dt, dom=None):
         if not (isinstance(a, np.ndarray) and a.dtype == object):
             a = np.asarray(a)
@@ -125,6 +133,8 @@ class SymArray:
 
     def _w(self, r, dt=None):
         if isinstance(r, np.ndarray):
+            if dt is None and r.dtype == object:
+                return SymArray._view(r, self._dt, self.dom)
             return SymArray(r, dt or self._dt, self.dom)
         return r
 
@@ -727,4 +737,9 @@ class _OEShim(types.ModuleType):
 
     def contract(self, *a, **k):
         k.pop('optimize', None)
-        return np.einsum(*a, **k)
+        r = np.einsum(*a, **k)
+        s = find_sym(a)
+        if s is not None and not isinstance(r, SymArray):
+            z = np.empty((), dtype=object); z[()] = r      # einsum to a scalar: NumPy returns a 0-d array
+            return SymArray(z, s._dt, s.dom)
+        return r
